@@ -113,7 +113,9 @@ def gen_history(rng, hid, confirm=False):
         h["batches"].append({"n": n, "cols": bc, "row_group_offsets": rgo, "compression": rng.choice(CODECS),
                              "pseed": rng.randrange(1 << 30), "iseed": rng.randrange(1 << 30),
                              # an appended frame may list the same columns in another order (schema-compatible; accepted by the library)
-                             "permute": (b > 0 and rng.random() < 0.5)})
+                             "permute": (b > 0 and rng.random() < 0.5),
+                             # the other documented entry point of an append: ParquetFile.write_row_groups
+                             "via": ("write_row_groups" if (b > 0 and not h["index"] and rng.random() < 0.3) else "write")})
     return h
 
 
@@ -292,7 +294,12 @@ def run_history(arg):
                     try:
                         akw = dict(kw)
                         akw.pop("write_index", None)
-                        write(target, df, append=True, open_with=rec.open_with, mkdirs=rec.mkdirs, **akw)
+                        if h["batches"][i].get("via") == "write_row_groups":
+                            ParquetFile(target, open_with=rec.open_with).write_row_groups(
+                                df, row_group_offsets=akw.get("row_group_offsets"), compression=akw["compression"],
+                                open_with=rec.open_with, mkdirs=rec.mkdirs)
+                        else:
+                            write(target, df, append=True, open_with=rec.open_with, mkdirs=rec.mkdirs, **akw)
                     except Exception as e:      # noqa
                         raised = "%s: %s" % (type(e).__name__, str(e)[:200])
                         st["tb"] = traceback.format_exc()[-800:]
@@ -427,6 +434,7 @@ def run(ctx):
     ctx.coq_file(os.path.join(C.COQ, "props", "C07.v"))
     bad = C.hygiene()
     ctx.obligation("hygiene: no Admitted/Axiom/Parameter/... in coq/", not bad, "; ".join(bad))
+    chk = dsfs.coqchk_start(C.COQ, "C07") if not ctx.quick() else None
     C.use_shadow()
     C.pqref()
     rng = ctx.rng
@@ -469,6 +477,8 @@ def run(ctx):
             i = st["step"]
             ctx.case({"h": h, "step": i}, trivial=(i == 0))
             ctx.count("rows_in_step", st["n"])
+            if i > 0:
+                ctx.count("entry_point", h["batches"][i].get("via", "write") + ("+permuted columns" if h["batches"][i].get("permute") else ""))
             short = {"history": h["id"], "scheme": h["scheme"], "step": i}
             if "raised" in st:
                 ctx.count("refused", st["raised"][:60])
@@ -546,6 +556,9 @@ def run(ctx):
     ctx.extra["model_trace_vs_recorded_trace"] = model_trace
     ctx.notes.append("Ops.append_trace equals the recorded call trace (kinds, paths, order; write data ignored) in %d of %d multi-file appends "
                      "(information, not an obligation)" % (model_trace["equal"], model_trace["equal"] + model_trace["different"]))
+
+    if chk is not None:
+        dsfs.coqchk_finish(ctx, chk, "C07")
 
 
 def replay(rep):
